@@ -357,6 +357,18 @@ def h_root_distance(c0: bool, c1: bool, c2: bool, g: int) -> bool:
     return reach(ok)
 
 
+def h_replay_normalise(v: int) -> bool:
+    from harness import _E2_lemmas as L
+
+    return L.replay_normalise(v)
+
+
+def h_replay_normalise_monotone(a: int, b: int) -> bool:
+    from harness import _E2_lemmas as L
+
+    return L.replay_normalise_monotone(a, b)
+
+
 META = {
     "level": "model_checking",
     "claim": "Bounded model checking by symbolic execution of the real fitness/coverage code over F-trace: for every "
@@ -382,7 +394,7 @@ META = {
                   "LineCoverageTestFitness,StatementCheckedCoverageTestFitness,create_*_fitness_functions}",
                   "pynguin.utils.controlflowdistance.{ControlFlowDistance,get_root_control_flow_distance,"
                   "get_non_root_control_flow_distance}"],
-    "bounds": {"predicates": "quick <= 3 per registry (views nested/seq/guard/box), thorough <= 4 (seqguard, loop, bool)",
+    "bounds": {"predicates": "quick <= 3 per registry (views nested/seq/guard/box), thorough <= 4 (seqguard, loop, bool; finite distances only)",
                "code_objects": "<= 3", "lines": "<= 4", "hit_count": "1..1000 (both-ways: 2..1001)",
                "distance": "a/16 with 1 <= a <= 2**60, inf, or one of the exact IEEE values 5e-324, 1e308, 1e-17 (thorough also 0.1, "
                "DBL_MAX)", "traces_per_suite": 1, "exclusion sets": "every subset of the 4 goals + the owning code object (view box)",
@@ -426,11 +438,11 @@ def obligations(tier: str):
         return Chx(f"{tag}[{name}]", fn, timeout=T, fix=fixes(name, klo, khi), split=split)
 
     obs = []
-    # IEEE-exact lemma for fitness_metrics.normalise (normalise(v) in [0,1], normalise(v) == 0 <=> v == 0, monotone,
-    # for every non-NaN v >= 0 in Float64): PLACEHOLDER — to be added here by the main session with the SMT engine
-    # (engines/py2smt.py), e.g. Smt("normalise_ieee_range", ...), Smt("normalise_ieee_zero", ...),
-    # Smt("normalise_ieee_monotone", ...).  Until then the IEEE side is covered by the exact edge-value
-    # obligations (*_ieee below) only.
+    # IEEE-exact lemmas for fitness_metrics.normalise (engine E2, encoded from the working tree's source on every run):
+    # normalise(v) in [0,1], normalise(v) == 0 <=> v == 0, monotone, for every non-NaN v >= 0 in Float64
+    from harness import _E2_lemmas as L
+
+    obs += L.normalise_obligations(tier, h_replay_normalise, h_replay_normalise_monotone)
 
     # ---- symbolic positive distances a/16 and inf (k in {0, 1})
     for name in ["seq", "guard", "box", "branchless", "empty"]:
@@ -442,12 +454,13 @@ def obligations(tier: str):
     obs.append(fam("is_covered", h_is_covered, "nested", 1))
     obs.append(fam("goals", h_goals, "nested", 2))
     if not q:
-        # four predicates: fitness/coverage values on one registry (they do not depend on the graph shape), covered
-        # verdicts and per-goal control-flow distances on three differently shaped code objects
-        obs.append(fam("values", h_values, "seqguard", 3))
+        # four predicates, finite symbolic distances only (k == 0; inf and the IEEE table are covered with <= 3 predicates):
+        # fitness/coverage values on one registry (they do not depend on the graph shape), covered verdicts and per-goal
+        # control-flow distances on three differently shaped code objects
+        obs.append(fam("values", h_values, "seqguard", 2, 0, 0))
         for name in ["seqguard", "loop", "bool"]:
-            obs.append(fam("is_covered", h_is_covered, name, 1))
-            obs.append(fam("goals", h_goals, name, 2))
+            obs.append(fam("is_covered", h_is_covered, name, 1, 0, 0))
+            obs.append(fam("goals", h_goals, name, 2, 0, 0))
     # ---- exact IEEE edge distances (k in 2..6)
     obs.append(fam("values_ieee", h_values, "seq", 1, 2, 4 if q else 6))
     obs.append(fam("goals_ieee", h_goals, "guard", 1, 2, 4 if q else 6))
